@@ -33,7 +33,7 @@ import rustscan as R
 VERIF = os.path.dirname(os.path.dirname(os.path.abspath(__file__)))
 REPO = os.environ.get("VERIF_REPO", "/repo")
 UNITS = os.path.join(VERIF, "verus", "units")
-OUT = os.path.join(VERIF, ".build", "verus")
+OUT = os.environ.get("VERIF_VERUS_OUT", os.path.join(VERIF, ".build", "verus"))
 
 
 def checker_cmd_text():
@@ -229,6 +229,42 @@ def drop_log_macros(text, applied):
             end = k + 1
         text = text[:mm.start()] + text[end:]
         applied.add("R7 tracing log statement %s!(..) dropped" % mm.group(1))
+
+
+def count_opaque_closures(text):
+    """Closures without a Verus contract (`|x| e`, not `|x: T| -> (o: U) ensures .. { e }`). Verus does
+    not infer closure contracts, so the value such a closure returns is unknown to the caller: a
+    proof failure in a function that GAINED one (e.g. by a harmless refactoring) is a tool limit."""
+    m = R.mask(text)
+    n = 0
+    i = 0
+    L = len(m)
+    while i < L:
+        if m[i] != "|":
+            i += 1
+            continue
+        k = i - 1
+        while k >= 0 and m[k] in " \t\n":
+            k -= 1
+        prev = m[k] if k >= 0 else "("
+        word = re.search(r"(\w+)$", m[:k + 1])
+        is_start = prev in "(,={;" or (word and word.group(1) in ("move", "return")) or m[max(0, k - 1):k + 1] == "=>"
+        if not is_start:
+            i += 2 if m[i:i + 2] == "||" else 1
+            continue
+        if m[i:i + 2] == "||":
+            j = i + 1
+        else:
+            j = m.find("|", i + 1)
+            if j < 0:
+                break
+        r = j + 1
+        while r < L and m[r] in " \t\n":
+            r += 1
+        if m[r:r + 2] != "->":
+            n += 1
+        i = j + 1
+    return n
 
 
 def rewrite_break_value(text, block, applied):
@@ -516,6 +552,7 @@ def process_fn(text, block, applied, canary=False):
     for a, b, r in sorted(edits, key=lambda e: -e[0]):
         body = body[:a] + r + body[b:]
     attrs = "".join(v.strip() + "\n" for k, v in d if k == "attr")
+    block.opaque_closures = count_opaque_closures(header + body)
     return attrs + header + body
 
 
@@ -596,7 +633,16 @@ def generate(unit, canary=False):
             continue
         b = val
         src, masked = _load(b.file)
-        start, body_open, end = R.locate(src, masked, b.path)
+        try:
+            start, body_open, end = R.locate(src, masked, b.path)
+        except R.LostAnchor:
+            if any(k == "optional" for k, _ in b.directives):
+                # an item the code may no longer have (e.g. a renamed private constant): the unit
+                # goes on without it; whatever the code now refers to is looked up automatically
+                manifest.append({"item": b.file + " >> " + " >> ".join(b.path), "source_lines": [0, 0], "sha256": "",
+                                 "rewrites": ["optional item absent in the current source: skipped"], "contract": []})
+                continue
+            raise
         lead = R.leading(src, masked, b.path)
         item = src[start:end]
         applied = set()
@@ -623,6 +669,8 @@ def generate(unit, canary=False):
             "sha256": hashlib.sha256(item.encode()).hexdigest()[:16],
             "rewrites": sorted(applied),
             "contract": [k for k, _ in b.directives if k in ("requires", "ensures", "decreases") or k.startswith("loop")],
+            "opaque_closures": getattr(b, "opaque_closures", 0),
+            "opaque_closures_expected": max([int(v.strip() or 0) for k, v in b.directives if k == "opaque_closures"] or [0]),
         })
     return "".join(out_lines), manifest, fn_spans, canary_lines
 
@@ -724,7 +772,42 @@ def auto_helper_near(label, fn_name, gen_text, gen_line):
         if item:
             where = " >> ".join([file] + path[:cut] + ["fn " + fn_name])
             break
+    const_item = None
     if not item:
+        for cut in range(len(path) - 1, -1, -1):
+            try:
+                st, bo, en = R.locate(src, masked, path[:cut] + ["const " + fn_name])
+            except R.LostAnchor:
+                continue
+            for (k2, s2, h2, b2, e2) in R.items_in(masked, st, en):
+                if k2 == "const" and R.header_name("const", h2) == fn_name:
+                    const_item = src[s2:e2]
+                    break
+            if const_item:
+                where = " >> ".join([file] + path[:cut] + ["const " + fn_name])
+                break
+    if not item and not const_item:
+        # sibling impl blocks of the same module (e.g. an inherent impl next to a trait impl)
+        mods = [seg for seg in path if seg.startswith("mod ")]
+        try:
+            if mods:
+                mst, mbo, men = R.locate(src, masked, mods)
+                lo, hi = mbo + 1, men - 1
+            else:
+                lo, hi = 0, len(src)
+            for (k1, s1, h1, b1, e1) in R.items_in(masked, lo, hi):
+                if k1 != "impl" or b1 is None:
+                    continue
+                for (k2, s2, h2, b2, e2) in R.items_in(masked, b1 + 1, e1 - 1):
+                    if k2 == "fn" and R.header_name("fn", h2) == fn_name and not item:
+                        item = src[s2:e2]
+                        where = " >> ".join([file] + mods + [R.header_name("impl", h1), "fn " + fn_name])
+                    elif k2 == "const" and R.header_name("const", h2) == fn_name and not const_item:
+                        const_item = src[s2:e2]
+                        where = " >> ".join([file] + mods + [R.header_name("impl", h1), "const " + fn_name])
+        except R.LostAnchor:
+            pass
+    if not item and not const_item:
         return None, None
     lines = gen_text.split("\n")
     hdr = None
@@ -735,6 +818,10 @@ def auto_helper_near(label, fn_name, gen_text, gen_line):
             break
     if hdr is None:
         return None, None
+    if const_item:
+        applied = set()
+        txt = strip_vis(strip_attrs(strip_comments(const_item), applied), applied)
+        return ("\n// auto-extracted constant (not listed in the unit): %s\n%s {\n    %s\n}\n" % (where, hdr, txt.strip())), where
     return _helper_text(file, where, item, fn_name, hdr), where
 
 
@@ -826,7 +913,7 @@ def run_unit(unit, timeout=600, with_canary=True):
                 where_line[cur_name] = int(ml_.group(2))
                 cur_name = None
         for fn_name, ty in sorted(missing):
-            if any(h_.endswith("fn " + fn_name) for h_ in helpers_added):
+            if any(h_.endswith("fn " + fn_name) or h_.endswith("const " + fn_name) for h_ in helpers_added):
                 continue
             ty = ty.split("::")[-1]
             h = None
@@ -890,8 +977,27 @@ def run_unit(unit, timeout=600, with_canary=True):
         res["errors"] = errs
         return res
     if nerr > 0:
+        # Verus does not infer closure contracts: a failure inside a function that has MORE
+        # contract-less closures than the unit expects (a closure introduced by the change) cannot be
+        # told from a tool limit -> undecided for that function, never an alarm
+        over = {m_["item"] for m_ in manifest if m_.get("opaque_closures", 0) > m_.get("opaque_closures_expected", 0)}
+        real = [e for e in errs if e.get("function") not in over]
+        if "// verif: counter-overflow-undecided" in text:
+            # trace units over unbounded feeds: a counter that could only overflow after 2^64 reads is
+            # not a violation of the unit's property; such a failure alone is left undecided
+            real2 = [e for e in real if "arithmetic underflow/overflow" not in e.get("message", "")]
+            if real and not real2:
+                res["reason"] = "only arithmetic-overflow obligations of a counter over an unbounded feed failed (unit marked counter-overflow-undecided)"
+                res["errors"] = errs
+                return res
+            real = real2 or real
+        if errs and not real:
+            res["reason"] = "proof failed only in function(s) with a closure that carries no contract (Verus does not infer closure contracts; tool limit): " + \
+                "; ".join(sorted({e.get("function") or "?" for e in errs}))[:400]
+            res["errors"] = errs
+            return res
         res["status"] = "failed"
-        res["errors"] = errs
+        res["errors"] = real or errs
         return res
     if verified == 0:
         res["reason"] = "vacuity guard: zero verified items"
